@@ -197,7 +197,9 @@ func (s *dirStore) manifest(digest string) ([]byte, bool) { return s.blob(digest
 
 func (s *dirStore) referrers(digest string) []aDesc {
 	alg, enc, _ := strings.Cut(digest, ":")
-	body, _, ok := s.tag(alg + "-" + enc)
+	// referrers tag schema of the distribution spec: <alg (at most 32 chars)>-<encoded (at most 64 chars)>
+	fallback := alg[:min(32, len(alg))] + "-" + enc[:min(64, len(enc))]
+	body, _, ok := s.tag(fallback)
 	if !ok {
 		return nil
 	}
